@@ -22,6 +22,7 @@ import (
 	gx509 "github.com/tjfoc/gmsm/x509"
 
 	"verif/mc/harness"
+	"verif/mc/props/c07"
 	"verif/mc/props/pu"
 	"verif/mc/props/sm2k"
 )
@@ -548,6 +549,10 @@ var Prop = &harness.Prop{
 			u = append(u, targetUnit(i, tier))
 		}
 		u = append(u, berUnit())
+		// the record layer as a decoder of untrusted bytes: short records for every cipher suite (shared with C07)
+		for sp := 0; sp < 4; sp++ {
+			u = append(u, c07.ShortRecordUnit(sp, 4))
+		}
 		for mi := range tlsModes() {
 			for k := 0; k < 7; k++ {
 				u = append(u, tlsUnit(mi, 0, k), tlsUnit(mi, 1, k))
